@@ -33,7 +33,7 @@ ASSUMPTIONS = [
 MONITORS = ("per-writer manifests computed by the harness vs the shared store after the run; per-event log (monotonic ns, writer, kind, object) "
             "from the audit hook giving contended objects and interleaving signatures; State.get answers vs hashlib")
 REQUIRED_COUNTERS = ["runs", "thread_runs", "process_runs", "contended_objects", "writers_checked", "objects_audited", "state_rows_checked",
-                     "jitter_sleeps", "identical_directory_runs", "second_directories_checked", "runs_with_a_failing_identical_writer", "line_jitter_runs", "line_jitter_yields", "verifying_writer_runs"]
+                     "jitter_sleeps", "identical_directory_runs", "second_directories_checked", "runs_with_a_failing_identical_writer", "line_jitter_runs", "line_jitter_yields", "verifying_writer_runs", "process_runs_with_relative_upload_staging"]
 
 
 def make_workspaces(rng, d, n):
@@ -274,8 +274,14 @@ def run_shard(ctx):
             start_at = time.monotonic() + 1.2
             ps = []
             plj = [rng.choice([0.05, 0.15, 0.3]), rng.choice([0.0005, 0.002, 0.005])] if rng.random() < 0.5 else None
+            upload_rel = rng.random() < 0.3
+            if upload_rel:
+                res.count("process_runs_with_relative_upload_staging")
+                for i in range(n):
+                    gen.write_tree(os.path.join(d, f"w{i}", "data"), trees[i])
             for i in range(n):
                 spec = {"root": d, "writer": i, "seed": rng.getrandbits(32), "jitter_ms": 2.0, "start_at": start_at, "line_jitter": plj,
+                        "upload_rel": os.path.join(d, f"w{i}") if upload_rel else None,
                         "ws": os.path.join(d, f"ws{i}"), "out": os.path.join(d, f"out{i}.json")}
                 sp = os.path.join(d, f"spec{i}.json")
                 with open(sp, "w", encoding="utf-8") as f:
@@ -308,7 +314,7 @@ def run_shard(ctx):
             res.count("contended_objects", len(contended))
             if contended:
                 res.nontrivial("processes", sig)
-            cfg = {"mode": "processes", "writers": n, "events": len(events), "contended_objects": len(contended), "identical_dirs": ident}
+            cfg = {"mode": "processes/upload-staging" if upload_rel else "processes", "writers": n, "events": len(events), "contended_objects": len(contended), "identical_dirs": ident}
             res.sample(cfg)
             audit(d, trees, results, case, cfg)
             ctx.drop(d)
